@@ -9,7 +9,7 @@ RUN_MODULE = "Run.Run_C16"
 GEN_FILES = ["Gen_types.v"]
 RULE = ("random lint-clean DAGs (1-4 inputs, 1-7 gates, constants 0/1/x, optionally a flip-flop blackbox) with 0-4 dead-logic edits: "
         "output marks dropped, dead gates / dead chains on arbitrary nodes (sharing fan-in with live logic), inputs with no load, inputs "
-        "loaded only by dead logic, inputs / gates / constants that carry the output mark and feed only dead logic, unloaded constants, a flop whose Q buffer is dead, occasionally a combinational cycle; node order "
+        "loaded only by dead logic, gates (dead or live) named exactly like a blackbox instance, inputs / gates / constants that carry the output mark and feed only dead logic, unloaded constants, a flop whose Q buffer is dead, occasionally a combinational cycle; node order "
         "shuffled; both values of `inputs`; the call is applied twice; non-trivial = at least one node removed or at least one dead-logic "
         "edit; distinct = canonical input hash")
 EXPLANATION = ("worklist model (orders explicit) proved to remove exactly the non-live removable nodes, keep survivors, be idempotent; "
@@ -33,7 +33,8 @@ def drivers(nodes):
 
 def edit(rng, d, names):
     nodes = d["nodes"]
-    kind = rng.choice(["unmark", "unmark", "dead_gate", "dead_gate", "dead_chain", "unloaded_input", "dead_only_input",
+    kinds = ["gate_named_like_instance"] * 3 if d["bbs"] else []
+    kind = rng.choice(kinds + ["unmark", "unmark", "dead_gate", "dead_gate", "dead_chain", "unloaded_input", "dead_only_input",
                        "dead_const", "dead_flop_q", "dead_tree", "unloaded_bbout", "out_input_dead_load", "out_input_dead_load",
                        "out_gate_dead_load"])
     if kind == "unmark":
@@ -82,6 +83,20 @@ def edit(rng, d, names):
             d["bbs"].append([inst, "ff", ["clk", "d"], ["q"]])
             if rng.random() < 0.4:
                 nodes.append([fresh(names, "dg"), "not", False, [q]])
+    elif kind == "gate_named_like_instance":
+        # node names and blackbox instance names are separate namespaces: a gate called exactly like an instance (dead, or live
+        # with a dead load) must be handled as the node it is; the instance's pins and registry record stay
+        free = [b[0] for b in d["bbs"] if b[0] not in names]
+        if free:
+            inst = rng.choice(free)
+            names.add(inst)
+            dr = drivers(nodes)
+            t = rng.choice(lib.GATES)
+            k = 1 if t in lib.SINGLE else rng.randint(1, min(3, len(dr)))
+            live = rng.random() < 0.3
+            nodes.append([inst, t, live, sorted(rng.sample(dr, k))])
+            if live or rng.random() < 0.4:
+                nodes.append([fresh(names, "dg"), rng.choice(lib.SINGLE), False, [inst]])
     elif kind == "out_input_dead_load":
         # a pass-through port: an input that is itself an output and whose only loads are dead logic
         i = fresh(names, "po")
@@ -175,6 +190,15 @@ def handmade():
         ["qb", "buf", False, ["ff0.q"]], ["dd", "not", False, ["qb"]]]}
     noq = {"name": "top", "bbs": [["u0", "lat", ["d"], ["q"]]], "nodes": [
         ["a", "input", True, []], ["u0.d", "bb_input", False, ["a"]], ["u0.q", "bb_output", False, []]]}
+    same = json.loads(json.dumps(flop))
+    same["nodes"][6][2] = True                                     # qb is an output: the flop is live
+    same["nodes"] = same["nodes"][:7] + [["ff0", "not", False, ["a"]]]          # dead gate called like the instance
+    same_live = json.loads(json.dumps(same))
+    same_live["nodes"][7][2] = True
+    same_live["nodes"].append(["dd", "buf", False, ["ff0"]])       # live gate called like the instance, with a dead load
+    for inp in (False, True):
+        out.append({"circuit": json.loads(json.dumps(same)), "inputs": inp, "edits": ["hand:dead_gate_named_like_instance"]})
+        out.append({"circuit": json.loads(json.dumps(same_live)), "inputs": inp, "edits": ["hand:live_gate_named_like_instance"]})
     for inp in (False, True):
         out.append({"circuit": json.loads(json.dumps(flop)), "inputs": inp, "edits": ["hand:flop_dead_q"]})
         out.append({"circuit": json.loads(json.dumps(noq)), "inputs": inp, "edits": ["hand:bbout_unloaded_from_start"]})
